@@ -2,30 +2,261 @@
 
 package vrt
 
-import "unsafe"
+import (
+	"fmt"
+	"sort"
+	"unsafe"
+)
 
-// happens-before monitor (filled in by hbmon.go once C19 is built)
-type hbState struct{}
+// Happens-before monitor (DESIGN.md §3.5). It is fed by the shims (synchronisation edges) and
+// by the access probes the instrumenter inserts in tracking mode. Under the cooperative scheduler
+// Go's own race detector is blind (every hand-off is a happens-before edge); this monitor only sees
+// the edges the program itself creates, so "no data race" becomes an invariant of every explored
+// schedule. All edges err on the side of MORE ordering (joins instead of replacement), so a reported
+// pair is unordered under any reading of the Go memory model; a missed edge could only hide a race.
 
-func newHB() *hbState                                   { return &hbState{} }
-func (h *hbState) newThread(s *Sched, t *Thread, c int) {}
+type vclock []uint32
 
-func hbSend(ch any)         {}
-func hbRecv(ch any)         {}
-func hbAcquire(ch any)      {}
-func hbRelease(ch any)      {}
-func hbPark(p *pendingSend) {}
-func hbTake(p *pendingSend) {}
+func (v vclock) get(i int) uint32 {
+	if i < len(v) {
+		return v[i]
+	}
+	return 0
+}
+
+func (v *vclock) join(o vclock) {
+	for len(*v) < len(o) {
+		*v = append(*v, 0)
+	}
+	for i, x := range o {
+		if x > (*v)[i] {
+			(*v)[i] = x
+		}
+	}
+}
+
+func (v vclock) clone() vclock { return append(vclock(nil), v...) }
+
+type hbAccess struct {
+	tid  int
+	clk  uint32
+	site string
+}
+
+type hbCell struct {
+	w     hbAccess
+	hasW  bool
+	reads []hbAccess
+	keep  unsafe.Pointer // keeps the object alive so its address is not reused within the execution
+}
+
+type hbState struct {
+	cells  map[uintptr]*hbCell
+	objs   map[any]*vclock   // locks, pools, waitgroups, closed channels, atomics (by address)
+	queues map[any][]vclock  // buffered channels: one clock per queued item
+	seen   map[string]bool
+}
+
+func newHB() *hbState {
+	return &hbState{cells: map[uintptr]*hbCell{}, objs: map[any]*vclock{}, queues: map[any][]vclock{}, seen: map[string]bool{}}
+}
+
+func (h *hbState) newThread(s *Sched, t *Thread, creator int) {
+	if creator >= 0 && creator < len(s.Threads) {
+		p := s.Threads[creator]
+		t.VC = vclock(p.VC).clone()
+		hbTick(p)
+	}
+	for len(t.VC) <= t.ID {
+		t.VC = append(t.VC, 0)
+	}
+	t.VC[t.ID] = 1
+}
+
+func hbTick(t *Thread) {
+	for len(t.VC) <= t.ID {
+		t.VC = append(t.VC, 0)
+	}
+	t.VC[t.ID]++
+}
+
+func hbOn() (*Sched, *hbState) {
+	s := S
+	if s == nil || !s.on || s.hb == nil || s.aborted {
+		return nil, nil
+	}
+	return s, s.hb
+}
+
+func (h *hbState) obj(k any) *vclock {
+	v := h.objs[k]
+	if v == nil {
+		v = &vclock{}
+		h.objs[k] = v
+	}
+	return v
+}
+
+// release: everything the current thread did so far happens before a later acquire of k.
+func hbRel(k any) {
+	s, h := hbOn()
+	if h == nil {
+		return
+	}
+	t := s.cur
+	h.obj(k).join(t.VC)
+	hbTick(t)
+}
+
+func hbAcq(k any) {
+	s, h := hbOn()
+	if h == nil {
+		return
+	}
+	t := s.cur
+	if v := h.objs[k]; v != nil {
+		(*vclock)(&t.VC).join(*v)
+	}
+}
+
+func hbSend(ch any) {
+	s, h := hbOn()
+	if h == nil {
+		return
+	}
+	t := s.cur
+	h.queues[ch] = append(h.queues[ch], vclock(t.VC).clone())
+	hbTick(t)
+}
+
+func hbRecv(ch any) {
+	s, h := hbOn()
+	if h == nil {
+		return
+	}
+	q := h.queues[ch]
+	if len(q) == 0 {
+		return // item put there by the environment (ticker)
+	}
+	(*vclock)(&s.cur.VC).join(q[0])
+	h.queues[ch] = q[1:]
+}
+
+func hbAcquire(ch any) { hbAcq(ch) }
+func hbRelease(ch any) { hbRel(ch) }
+
+func hbPark(p *pendingSend) {
+	s, h := hbOn()
+	if h == nil {
+		return
+	}
+	p.vc = vclock(s.cur.VC).clone()
+	hbTick(s.cur)
+}
+
+func hbTake(p *pendingSend) {
+	s, h := hbOn()
+	if h == nil {
+		return
+	}
+	(*vclock)(&s.cur.VC).join(p.vc)
+}
+
+// hbHandOff: a rendezvous completed on behalf of a blocked thread: from's past happens before to's future.
+func hbHandOff(from, to *Thread) {
+	s, h := hbOn()
+	if h == nil || s == nil {
+		return
+	}
+	(*vclock)(&to.VC).join(from.VC)
+	hbTick(from)
+}
 
 // HBAcquire / HBRelease are called by the lock / pool / waitgroup models.
-func HBAcquire(obj any) {}
-func HBRelease(obj any) {}
+func HBAcquire(obj any) { hbAcq(obj) }
+func HBRelease(obj any) { hbRel(obj) }
 
-// AtomicLoad / AtomicStore / AtomicRMW are called by the atomic shims after their yield.
-func AtomicLoad(p unsafe.Pointer)  {}
-func AtomicStore(p unsafe.Pointer) {}
-func AtomicRMW(p unsafe.Pointer)   {}
+// Atomics synchronise: an atomic operation that observes the effect of an earlier one is ordered after it.
+func AtomicLoad(p unsafe.Pointer)  { hbAcq(uintptr(p)) }
+func AtomicStore(p unsafe.Pointer) { hbRel(uintptr(p)) }
+func AtomicRMW(p unsafe.Pointer)   { hbAcq(uintptr(p)); hbRel(uintptr(p)) }
 
-// R / W are the access probes inserted by the instrumenter in tracking mode.
-func R(p unsafe.Pointer, site string) {}
-func W(p unsafe.Pointer, site string) {}
+func (h *hbState) cell(p unsafe.Pointer, tag uintptr) *hbCell {
+	k := uintptr(p)<<1 | tag
+	c := h.cells[k]
+	if c == nil {
+		c = &hbCell{keep: p}
+		h.cells[k] = c
+	}
+	return c
+}
+
+func (s *Sched) race(a hbAccess, akind string, b hbAccess, bkind string) {
+	x, y := a.site+" ["+akind+"]", b.site+" ["+bkind+"]"
+	pair := []string{x, y}
+	sort.Strings(pair)
+	key := pair[0] + " <-> " + pair[1]
+	if s.hb.seen[key] {
+		return
+	}
+	s.hb.seen[key] = true
+	s.Races = append(s.Races, fmt.Sprintf("%s <-> %s (threads %s / %s)", pair[0], pair[1], s.tname(a.tid), s.tname(b.tid)))
+}
+
+func (s *Sched) tname(id int) string {
+	if id < len(s.Threads) {
+		n := s.Threads[id].Name
+		if n == "" {
+			n = "store-goroutine"
+		}
+		return n
+	}
+	return "?"
+}
+
+func hbRead(p unsafe.Pointer, site string, tag uintptr) {
+	s, h := hbOn()
+	if h == nil || s.quiet > 0 {
+		return
+	}
+	t := s.cur
+	c := h.cell(p, tag)
+	if c.hasW && c.w.tid != t.ID && c.w.clk > vclock(t.VC).get(c.w.tid) {
+		s.race(c.w, "write", hbAccess{t.ID, 0, site}, "read")
+	}
+	me := hbAccess{t.ID, vclock(t.VC).get(t.ID), site}
+	for i := range c.reads {
+		if c.reads[i].tid == t.ID {
+			c.reads[i] = me
+			return
+		}
+	}
+	c.reads = append(c.reads, me)
+}
+
+func hbWrite(p unsafe.Pointer, site string, tag uintptr) {
+	s, h := hbOn()
+	if h == nil || s.quiet > 0 {
+		return
+	}
+	t := s.cur
+	c := h.cell(p, tag)
+	me := hbAccess{t.ID, vclock(t.VC).get(t.ID), site}
+	if c.hasW && c.w.tid != t.ID && c.w.clk > vclock(t.VC).get(c.w.tid) {
+		s.race(c.w, "write", me, "write")
+	}
+	for _, r := range c.reads {
+		if r.tid != t.ID && r.clk > vclock(t.VC).get(r.tid) {
+			s.race(r, "read", me, "write")
+		}
+	}
+	c.w, c.hasW = me, true
+	c.reads = c.reads[:0]
+}
+
+// R / W are the access probes inserted by the instrumenter in tracking mode; MR / MW are the
+// accesses to a map's contents (keyed apart from the field that holds the map).
+func R(p unsafe.Pointer, site string)  { hbRead(p, site, 0) }
+func W(p unsafe.Pointer, site string)  { hbWrite(p, site, 0) }
+func MR(p unsafe.Pointer, site string) { hbRead(p, site, 1) }
+func MW(p unsafe.Pointer, site string) { hbWrite(p, site, 1) }
